@@ -192,12 +192,14 @@ class SpawnProcess(multiprocessing.context.SpawnProcess):
 
     def _collect_result(self):
         result, error = None, None
+        terminated = False
         try:
             result = self._result_and_error_.recv()
             error = self._result_and_error_.recv()
 
         except EOFError as exc:
             # the process has been terminated by calling ``self.terminate()``
+            terminated = True
             while self.exitcode is None:
                 time.sleep(0.001)
 
@@ -221,7 +223,17 @@ class SpawnProcess(multiprocessing.context.SpawnProcess):
                 error = OSError(exitcode, msg)
                 error.__cause__ = exc
 
+        # The child flushes its log records before it exits. End the logger thread only
+        # after that, so that no record is lost or left blocking the child, and wait for it,
+        # so that all records have been handled when `join` returns and `_finalize`
+        # (which may run during garbage collection) never has to wait.
+        multiprocessing.connection.wait([self.sentinel])
+        while self.exitcode is None:
+            time.sleep(0.001)
         self._logger_queue_.put(None)
+        # A child that did not end by itself may have died while writing a record (holding
+        # the queue's write lock); then the end mark can never arrive: do not wait forever.
+        self._logger_thread_.join(1 if terminated or self.exitcode < 0 else None)
         self._result_and_error_.close()
         self._result_and_error_ = None
         if error is not None:
